@@ -117,6 +117,10 @@ func ruleJournalWrite(p *Prog, r *Report, rule string) {
 }
 
 func runC04(p *Prog, r *Report) {
+	if want("C04.34") {
+		// a torn manifest edit is skipped, not fatal
+		ruleTornEditIsCorruption(p, r, "C04.34")
+	}
 	if want("C04.33") {
 		// (shared with C12) an undamaged journal must read back: no padding that parses as a header
 		ruleJournalTailPadding(p, r, "C04.33")
